@@ -72,6 +72,35 @@ def writeOpOf (verb : String) (l : Line) : Option (WriteOp Elem) := do
   | "erase_chunks" => pure (.eraseChunks (← parseSubset (← l.get "box")))
   | _ => none
 
+/-- C07: the typed element forms of the writes denote the same write as the byte forms -/
+def untypedVerb (verb : String) : String :=
+  match verb with
+  | "tstore_chunk" => "store_chunk"
+  | "tstore_chunks" => "store_chunks"
+  | "tstore_chunk_subset" => "store_chunk_subset"
+  | "tstore_array_subset" => "store_array_subset"
+  | v => v
+
+/-- the sub-boxes and data of a partial-encoder request `penc c= rs=a|b data=x|y` -/
+def pencArgs (l : Line) : Option (List (Subset × List Elem)) := do
+  let rs ← ((← l.get "rs").splitOn "|").mapM parseSubset
+  let ds ← ((← l.get "data").splitOn "|").mapM parseElems
+  if rs.length == ds.length then pure (rs.zip ds) else none
+
+/-- the write operations a request denotes, in order (C07 adds typed writes and the partial encoder, which applies
+several sub-box writes of one chunk in one call) -/
+def writeOpsOf (verb : String) (l : Line) : List (WriteOp Elem) :=
+  match verb with
+  | "penc" =>
+    match l.nl "c", pencArgs l with
+    | some c, some ps => ps.map (fun p => .storeChunkSubset c p.1 p.2)
+    | _, _ => []
+  | "penc_erase" => match l.nl "c" with | some c => [.eraseChunk c] | none => []
+  | _ => (writeOpOf (untypedVerb verb) l).toList
+
+/-- presence of the encoded chunk of `c` in the model store -/
+def encPresent (cfg : ArrCfg Elem) (st : KV) (c : Idx) : Bool := (st.get (cfg.keyOf c)).isSome
+
 /-- what the abstract array says a read returns (none = not a read / region not expressible) -/
 def specRead (cfg : ArrCfg Elem) (a : AArr Elem) (verb : String) (l : Line) : Option String := do
   match verb with
@@ -118,6 +147,48 @@ def handleCore (st : St) (l : Line) : Option (St × List String) := do
       | "retrieve_chunks" => pure (st, [optVal (cfg.retrieveChunks st.st (← parseSubset (← l.get "box")))])
       | "retrieve_chunk_subset" => pure (st, [optVal (cfg.retrieveChunkSubset st.st (← l.nl "c") (← parseSubset (← l.get "r")))])
       | "retrieve_array_subset" => pure (st, [optVal (cfg.retrieveArraySubset st.st (← parseSubset (← l.get "r")))])
+      -- C07: typed element forms of the writes (a data type without a typed form answers `untyped` and writes nothing)
+      | "tstore_chunk" =>
+        if l.outcome == "untyped" then pure (st, ["untyped"]) else
+        let (s, o) := optUnit (cfg.storeChunk st.st (← l.nl "c") (← parseElems (← l.get "data"))) st; pure (s, [o])
+      | "tstore_chunks" =>
+        if l.outcome == "untyped" then pure (st, ["untyped"]) else
+        let (s, o) := optUnit (cfg.storeChunks st.st (← parseSubset (← l.get "box")) (← parseElems (← l.get "data"))) st; pure (s, [o])
+      | "tstore_chunk_subset" =>
+        if l.outcome == "untyped" then pure (st, ["untyped"]) else
+        let (s, o) := optUnit (cfg.storeChunkSubset st.st (← l.nl "c") (← parseSubset (← l.get "r")) (← parseElems (← l.get "data"))) st; pure (s, [o])
+      | "tstore_array_subset" =>
+        if l.outcome == "untyped" then pure (st, ["untyped"]) else
+        let (s, o) := optUnit (cfg.storeArraySubset st.st (← parseSubset (← l.get "r")) (← parseElems (← l.get "data"))) st; pure (s, [o])
+      -- C07: encoded chunks. The harness compares the bytes of the two APIs (over the same store contents) position by
+      -- position and reports which positions hold a value: the model predicts exactly that, in the order of
+      -- `chunks.indices()` (`retrieve_encoded_chunks` / `async_retrieve_encoded_chunks`, array_*_readable.rs)
+      | "enc_chunk" => pure (st, [if encPresent cfg st.st (← l.nl "c") then "enc some" else "enc none"])
+      | "enc_chunks" =>
+        let box ← parseSubset (← l.get "box")
+        let pat := box.indices.map (fun c => if encPresent cfg st.st c then '1' else '0')
+        pure (st, ["encs " ++ (if pat.isEmpty then "~" else String.ofList pat)])
+      -- C07: the array's metadata document (`store_metadata_opt` / `erase_metadata_opt` and their async forms; the arrays
+      -- of these cases are Zarr V3, so erasing "v2" leaves the document)
+      | "open_opt" => pure (st, [if (l.get "v") == some "v2" then "err" else "ok"])
+      | "store_metadata" => pure (st, ["ok meta=present"])
+      | "erase_metadata" => pure (st, [if (l.get "v") == some "v2" then "ok meta=present" else "ok meta=absent"])
+      -- C07: the partial encoder applies the sub-box writes of one call in order (array_to_bytes_partial_encoder_default.rs
+      -- `partial_encode`: decode or fill, update per subset in order, elide or encode), `erase` erases the chunk
+      | "penc" =>
+        let c ← l.nl "c"
+        let ps ← pencArgs l
+        let r := ArrCfg.foldOpt (fun kv (p : Subset × List Elem) => cfg.storeChunkSubset kv c p.1 p.2) st.st ps
+        let (s, o) := optUnit r st; pure (s, [o])
+      | "penc_erase" => pure ({ st with st := cfg.eraseChunk st.st (← l.nl "c") }, ["ok"])
+      | "typed_chunk_if_exists" | "nd_chunk_if_exists" =>
+        pure (st, [match cfg.retrieveChunkIfExists st.st (← l.nl "c") with
+          | some (some xs) => "val " ++ showElems xs
+          | some none => "none"
+          | none => "err", "untyped"])
+      | "nd_chunk" => pure (st, [optVal (cfg.retrieveChunk st.st (← l.nl "c")), "untyped"])
+      | "nd_chunks" => pure (st, [optVal (cfg.retrieveChunks st.st (← parseSubset (← l.get "box"))), "untyped"])
+      | "nd_chunk_subset" => pure (st, [optVal (cfg.retrieveChunkSubset st.st (← l.nl "c") (← parseSubset (← l.get "r"))), "untyped"])
       | "keys" => pure (st, ["keys " ++ (if st.st.isEmpty then "~" else ",".intercalate (st.st.keys.map String.ofList))])
       | "reopen" => pure (st, ["ok"])
       | "raw" => pure (st, ["any"])     -- judged by the C05 handler
@@ -184,9 +255,7 @@ def handle (st : St) (l : Line) : Option (St × List String × Option String) :=
   match st.cfg, l.verbs[2]? with
   | some cfg, some verb =>
     -- advance the abstract array on accepted writes
-    let abs' := match writeOpOf verb l with
-      | some op => if acc == ["ok"] then cfg.absOp st.abs op else st.abs
-      | none => st.abs
+    let abs' := if acc == ["ok"] then (writeOpsOf verb l).foldl cfg.absOp st.abs else st.abs
     let note := match specRead cfg st.abs verb l with
       | some s => if acc == [s] || acc == ["err"] then none else some ("model differs from abstract array: spec=" ++ s)
       | none => none
